@@ -563,6 +563,44 @@ def replay(path):
     p = subprocess.run(cmd, env=env)
     return 1 if p.returncode else 0
 
+def write_manifest():
+    import props
+    checks = []
+    for pid in sorted(PROPS):
+        p = PROPS[pid]
+        if p.get("unclaimed"):
+            continue
+        checks.append({
+            "property_id": pid,
+            "quick_cmd": "python3 verif.py check %s --tier quick" % pid,
+            "thorough_cmd": "python3 verif.py check %s --tier thorough" % pid,
+            "evidence_file": "/verif/evidence/%s.json" % pid,
+            "replay_cmd_template": "python3 verif.py replay {path}",
+            "engine": "mon",
+            "level_claimed": {"category": p["level"], "text": p.get("level_text", p["rule"]), "design_ref": "DESIGN.md section 4, " + pid},
+            "level_note": "; ".join(p.get("assumptions", [])) or "trusted base: harness reference model and judge",
+            "technique": p.get("technique", "runtime monitoring: sanitizer-instrumented executions of the real library checked by an independent reference-model oracle"),
+        })
+    man = {
+        "version": 1,
+        "setup_cmd": "python3 verif.py setup",
+        "hooks": {
+            "guard": "M4RI_VERIF",
+            "enable": "verif.py copies /repo/m4ri/*.c,*.h into build/<cfg>-<hash>/m4ri, writes its own m4ri_config.h from m4ri_config.h.in and compiles with -DM4RI_VERIF",
+            "baseline_off_cmd": "make -C /repo -j16 && make -C /repo check -j8",
+            "source_commits": props.HOOK_COMMITS,
+            "add_only": True,
+        },
+        "engines": [{"name": "mon", "path": "/verif/harness", "serves_properties": sorted(PROPS),
+                     "kind_free_text": "C monitor engine statically linked against one build configuration of m4ri (ASan+UBSan / TSan / Archer / memcheck), driven and judged by verif.py"}],
+        "checks": checks,
+        "not_applicable": props.NOT_APPLICABLE,
+        "notes": "Runtime monitoring only. Exit 0 held on everything observed; 1 violation not in known_findings.txt; 2 harness failure / inconclusive. VERIF_SEED selects the PRNG stream.",
+    }
+    json.dump(man, open(os.path.join(ROOT, "MANIFEST.json"), "w"), indent=1)
+    print("MANIFEST.json written: %d checks" % len(checks))
+    return 0
+
 def main():
     if len(sys.argv) < 2:
         print(__doc__)
@@ -589,6 +627,8 @@ def main():
         return check(pid, tier, seed)
     if cmd == "replay":
         return replay(sys.argv[2])
+    if cmd == "manifest":
+        return write_manifest()
     print(__doc__)
     return 2
 
